@@ -604,13 +604,17 @@ pub fn clock_hook(sleep_ns: u64) -> Option<u64> {
     }
     let mut st = sim.lock();
     st.clock_reads += 1;
-    let jump = match st.rng.weighted(&[50, 20, 12, 8, 6, 4]) {
-        0 => st.rng.range(1, 5_000),                                   // < 5 us
-        1 => st.rng.range(5_000, 5_000_000),                           // < 5 ms
-        2 => st.rng.range(5_000_000, 2_000_000_000),                   // < 2 s
-        3 => st.rng.range(2_000_000_000, 3_600_000_000_000),           // < 1 h
-        4 => st.rng.range(3_600_000_000_000, 86_400_000_000_000),      // < 1 day
-        _ => st.rng.range(86_400_000_000_000, 40 * 86_400_000_000_000), // < 40 days
+    // Inside an operation time passes the way it does for a thread that may be descheduled:
+    // mostly microseconds, now and then milliseconds, rarely seconds (an overloaded machine).
+    // The long gaps - hours, days - lie *between* operations (see `idle_gap`): a one-hour
+    // timeout does not fire because a helper thread was slow, but a one-hour cache does expire
+    // between two requests.
+    let jump = match st.rng.weighted(&[60, 25, 10, 4, 1]) {
+        0 => st.rng.range(1, 5_000),                         // < 5 us
+        1 => st.rng.range(5_000, 5_000_000),                 // < 5 ms
+        2 => st.rng.range(5_000_000, 500_000_000),           // < 0.5 s
+        3 => st.rng.range(500_000_000, 3_000_000_000),       // < 3 s
+        _ => st.rng.range(3_000_000_000, 10_000_000_000),    // < 10 s
     };
     st.sim_clock_ns = st.sim_clock_ns.saturating_add(jump).saturating_add(sleep_ns);
     st.trace = fold(st.trace, 0xC10C ^ st.sim_clock_ns);
@@ -711,8 +715,26 @@ pub fn op_end(sim: &Arc<Sim>, id: usize) -> u32 {
     })
 }
 
-/// Scheduling point between two operations of a task.
+/// Scheduling point between two operations of a task. Simulated time may make a long jump
+/// here: the caller was idle for a while (seconds to weeks) before its next request.
 pub fn op_boundary(sim: &Arc<Sim>, id: usize) {
+    {
+        let mut st = sim.lock();
+        // ... and only while no caller is inside an operation: an idle *system*, not one caller
+        // stretching another caller's call over days
+        if st.clock_reads > 0 && !st.in_op.iter().any(|b| *b) {
+            // only once the crate has shown that it looks at a clock at all (keeps episodes of a
+            // tree that reads no clock identical to what they were)
+            let gap = match st.rng.weighted(&[70, 10, 10, 7, 3]) {
+                0 => 0,
+                1 => st.rng.range(1, 1_000_000_000),                                // < 1 s
+                2 => st.rng.range(1_000_000_000, 3_600_000_000_000),                // < 1 h
+                3 => st.rng.range(3_600_000_000_000, 86_400_000_000_000),           // < 1 day
+                _ => st.rng.range(86_400_000_000_000, 40 * 86_400_000_000_000),     // < 40 days
+            };
+            st.sim_clock_ns = st.sim_clock_ns.saturating_add(gap);
+        }
+    }
     sim.yield_point(id, "op:boundary");
 }
 
@@ -756,7 +778,7 @@ mod spawned {
                 }
                 let id = st.alive.len();
                 st.alive.push(true);
-                st.in_op.push(true);
+                st.in_op.push(false); // not a caller: its work happens inside some caller's operation
                 let p = 500 + st.rng.below(1000);
                 st.prio.push(p);
                 st.spawned += 1;
